@@ -28,7 +28,8 @@ EXPLANATION = (
     "RequestResponse, every from_bool(e) receives a bool on every path of every target - otherwise the answer is None, not one of "
     "the four statuses) and R5.8 = C11's R11.4 (each permission rule computes its documented predicate) applied here. R5.1 also: the key the dispatcher looks up is the first path element exactly as sent (bound once, no rewriting); R5.9 every permission condition the "
     "documentation states for an action (docs/source/action_masking.rst) is a validator on the action's static route (four confirmed exceptions frozen); R5.10 no simulator method writes an attribute and "
-    "then decides from that same attribute - directly, through a property or a pure helper - to return False with nothing attempted in between and no write-back. NOT decided: that a handler which is reached changes only what "
+    "then decides from that same attribute - directly, through a property or a pure helper - to return False with nothing attempted in between and no write-back. R5.11 numeric action parameters for which 0 is a legal value (ACL position, indices) are never tested by truthiness in the action classes. "
+    "NOT decided: that a handler which is reached changes only what "
     "it should, and status 'success' meaning the operation really succeeded (behavioural)."
 )
 TECHNIQUE = "static: CFG must-pass on the dispatcher, request-tree reconstruction from all add_request sites vs evaluated form_request path templates, purity closure of validators"
